@@ -54,6 +54,9 @@ func (r *Recorder) BuildReport(now time.Time, maxSize int) *rtcp.CCFeedbackRepor
 	}
 	maxReportBlocks := max((maxSize-12-(8*streamCount))/2, 0)
 	maxReportBlocksPerStream := maxReportBlocks / streamCount
+	// Every report block is padded to a multiple of 32 bits: an odd number of metric blocks takes as much
+	// space as the next even number, so only an even number is guaranteed to fit.
+	maxReportBlocksPerStream -= maxReportBlocksPerStream % 2
 
 	for _, log := range r.streams {
 		block := log.metricsAfter(now, int64(maxReportBlocksPerStream))
